@@ -63,7 +63,7 @@ def make_asymmetric_error_set(num_qubit, distance, weight_z=1):
     # nx+ny+cz*nz<distance
     assert weight_z>0
     ret = []
-    for nxy in range(min(num_qubit,distance)):
+    for nxy in range(min(num_qubit+1,distance)): #nxy<=num_qubit and nxy<distance
         tmp0 = int(np.ceil((distance-nxy)/weight_z))
         for nz in range(min(num_qubit-nxy+1, tmp0)):
             if (nxy==0) and (nz==0):
